@@ -266,9 +266,8 @@ Definition month_name (m : month) : list N :=
   end.
 
 Definition show_year (ck : bool) (y : Z) : res (list N) :=
-  if y <? 0 then
-    do n <- i32_op ck 7 (- y);
-    Ok (Z_decimal n ++ B" BC")
+  (* unsigned_abs() (fix 5a… "year i32::MIN"): no overflow in either build *)
+  if y <? 0 then Ok (Z_decimal (- y) ++ B" BC")
   else Ok (Z_decimal y).
 
 Definition show_date (ck : bool) (d : date) : res (list N) :=
